@@ -702,6 +702,21 @@ func (env *Env) call(x *ast.CallExpr) TV {
 		case "string", "int":
 			return env.expr(x.Args[0])
 		}
+		// conversion to a basic (or named basic) type: identity on the SMT level
+		if len(x.Args) == 1 {
+			if tn, ok := types.Universe.Lookup(fname).(*types.TypeName); ok {
+				v := env.expr(x.Args[0])
+				return TV{v.T, tn.Type()}
+			}
+			if env.pkg != nil {
+				if tn, ok := env.pkg.Scope().Lookup(fname).(*types.TypeName); ok {
+					if _, isBasic := tn.Type().Underlying().(*types.Basic); isBasic {
+						v := env.expr(x.Args[0])
+						return TV{v.T, tn.Type()}
+					}
+				}
+			}
+		}
 		// spec function of this package?
 		if sf := vc.P.cs.Specs[env.pkg.Path()+"."+fname]; sf != nil {
 			return env.applySpec(sf, x.Args)
@@ -709,6 +724,9 @@ func (env *Env) call(x *ast.CallExpr) TV {
 		// pure Go function of this package?
 		if fc := vc.P.cs.Funcs[env.pkg.Path()+"."+fname]; fc != nil && fc.Pure {
 			return env.applyPure(fc, x.Args)
+		}
+		if uf := vc.P.cs.UFuncs[env.pkg.Path()+"."+fname]; uf != nil {
+			return env.applyUFunc(uf, x.Args)
 		}
 		sfail("unknown function %s in contract", fname)
 	}
@@ -726,11 +744,38 @@ func (env *Env) call(x *ast.CallExpr) TV {
 	case "strings.Index":
 		s, p := env.expr(x.Args[0]), env.expr(x.Args[1])
 		return TV{vc.strIndex(s.T, p.T), tInt}
-	case "strings.ToLower":
-		s := env.expr(x.Args[0])
-		return TV{vc.strUF("strings.ToLower", "Str", s.T), tString}
 	}
 	p := env.findImport(qual)
+	if p != nil && deterministicPkg(p.Path()+"."+fname) {
+		// deterministic library function over value arguments: same uninterpreted function as at call sites
+		if fo, ok := p.Scope().Lookup(fname).(*types.Func); ok {
+			sig := fo.Type().(*types.Signature)
+			if sig.Results().Len() >= 1 {
+				var as, ts []string
+				okv := true
+				for _, a := range x.Args {
+					v := env.expr(a)
+					srt := vc.sorts.sortOf(v.Ty)
+					if isUntyped(v.Ty) {
+						srt = "Int"
+						if isString(v.Ty) {
+							srt = "Str"
+						}
+					}
+					if srt != "Str" && srt != "Int" && srt != "Bool" {
+						okv = false
+					}
+					as = append(as, srt)
+					ts = append(ts, v.T)
+				}
+				rt := sig.Results().At(0).Type()
+				rs := vc.sorts.sortOf(rt)
+				if okv && (rs == "Str" || rs == "Int" || rs == "Bool") {
+					return TV{vc.detUF(p.Path()+"."+fname, 0, as, ts, rs), rt}
+				}
+			}
+		}
+	}
 	if p == nil {
 		sfail("unknown package %s", qual)
 	}
@@ -741,6 +786,9 @@ func (env *Env) call(x *ast.CallExpr) TV {
 	}
 	if fc := vc.P.cs.Funcs[p.Path()+"."+fname]; fc != nil && fc.Pure {
 		return env.applyPure(fc, x.Args)
+	}
+	if uf := vc.P.cs.UFuncs[p.Path()+"."+fname]; uf != nil {
+		return env.applyUFunc(uf, x.Args)
 	}
 	sfail("unknown function %s.%s in contract", qual, fname)
 	return TV{}
@@ -861,6 +909,12 @@ func (vc *VC) hasSuffix(s, p string) string {
 }
 
 func (vc *VC) strContains(s, p string) string {
+	if ls, ok := vc.litValue(s); ok {
+		if lp, ok2 := vc.litValue(p); ok2 {
+			// both literals: decided at translation time
+			return fmt.Sprint(strings.Contains(ls, lp))
+		}
+	}
 	vc.global("uf:scontains", `(declare-fun scontains (Str Str) Bool)
 (declare-fun smatchat (Str Str Int) Bool)
 (assert (forall ((s Str) (p Str) (k Int)) (! (= (smatchat s p k) (and (<= 0 k) (<= (+ k (slen p)) (slen s)) (forall ((j Int)) (=> (and (<= 0 j) (< j (slen p))) (= (sat s (+ k j)) (sat p j)))))) :pattern ((smatchat s p k)))))
@@ -984,4 +1038,83 @@ func (env *Env) applyRec(sf *SpecFunc, args []ast.Expr, argEnv *Env) TV {
 		ts = append(ts, v.T)
 	}
 	return TV{"(" + ri.name + " " + strings.Join(ts, " ") + ")", ri.rtype}
+}
+
+
+// ---- uninterpreted specification functions and the axioms of their package ----
+
+func (env *Env) applyUFunc(uf *UFunc, args []ast.Expr) TV {
+	vc := env.vc
+	pkg := vc.P.typesPkg(uf.Pkg)
+	if pkg == nil {
+		sfail("ufunc %s: package not loaded", uf.Name)
+	}
+	tenv := &Env{vc: vc, pkg: pkg, vars: map[string]TV{}, heap: Heap{m: map[string]string{}}, top0: "1"}
+	if len(args) != len(uf.Params) {
+		sfail("ufunc %s: want %d args", uf.Name, len(uf.Params))
+	}
+	var sorts []string
+	var ptypes []types.Type
+	for _, p := range uf.Params {
+		t := tenv.resolveType(p.Type)
+		if !isValueOnly(t, 0) {
+			sfail("ufunc %s: parameter %s must be value-only", uf.Name, p.Name)
+		}
+		ptypes = append(ptypes, t)
+		sorts = append(sorts, vc.sorts.sortOf(t))
+	}
+	rt := tenv.resolveType(uf.Result)
+	name := q("uf:" + strings.TrimPrefix(uf.Pkg, modulePath+"/") + "." + uf.Name)
+	key := "ufunc:" + uf.Pkg + "." + uf.Name
+	if !vc.declared[key] {
+		vc.declared[key] = true
+		if len(sorts) == 0 {
+			vc.globals = append(vc.globals, fmt.Sprintf("(declare-const %s %s)", name, vc.sorts.sortOf(rt)))
+		} else {
+			vc.globals = append(vc.globals, fmt.Sprintf("(declare-fun %s (%s) %s)", name, strings.Join(sorts, " "), vc.sorts.sortOf(rt)))
+		}
+		vc.emitAxioms(uf.Pkg)
+	}
+	var ts []string
+	for i, a := range args {
+		v := env.expr(a)
+		if isUntypedNil(v.Ty) {
+			v.T = vc.sorts.zero(ptypes[i], vc.lits)
+		}
+		ts = append(ts, v.T)
+	}
+	if len(ts) == 0 {
+		return TV{name, rt}
+	}
+	return TV{"(" + name + " " + strings.Join(ts, " ") + ")", rt}
+}
+
+func (vc *VC) emitAxioms(pkgPath string) {
+	key := "axioms:" + pkgPath
+	if vc.declared[key] {
+		return
+	}
+	vc.declared[key] = true
+	pkg := vc.P.typesPkg(pkgPath)
+	for _, ax := range vc.P.cs.Axioms {
+		if ax.Pkg != pkgPath {
+			continue
+		}
+		env := &Env{vc: vc, pkg: pkg, vars: map[string]TV{}, heap: Heap{m: map[string]string{}}, top0: "1"}
+		env.old = env
+		var binds []string
+		for i, prm := range ax.Params {
+			t := env.resolveType(prm.Type)
+			bn := fmt.Sprintf("%s!ax%d", prm.Name, i)
+			binds = append(binds, fmt.Sprintf("(%s %s)", bn, vc.sorts.sortOf(t)))
+			env.vars[prm.Name] = TV{bn, t}
+		}
+		body := env.expr(ax.Body)
+		vc.assumed["axiom: "+ax.Name+" ("+strings.TrimPrefix(pkgPath, modulePath+"/")+")"] = true
+		if len(binds) == 0 {
+			vc.globals = append(vc.globals, "(assert "+body.T+")")
+		} else {
+			vc.globals = append(vc.globals, fmt.Sprintf("(assert (forall (%s) %s))", strings.Join(binds, " "), body.T))
+		}
+	}
 }
